@@ -95,6 +95,7 @@ type MStream struct {
 	EOFWith bool // deliver the final bytes together with io.EOF
 	Reads   int
 	Closed  int
+	Head    []byte // byte-precise first bytes of the stream (optional; needs L >= len(Head))
 }
 
 func (s *MStream) Read(p []byte) (int, error) {
@@ -104,6 +105,16 @@ func (s *MStream) Read(p []byte) (int, error) {
 	}
 	if len(p) == 0 {
 		return 0, nil
+	}
+	if len(s.Head) > 0 && vsym.IsConcrete(s.Pos) && s.Pos < int64(len(s.Head)) && s.FailAt < 0 {
+		// deliver the byte-precise head on its own
+		n := len(s.Head) - int(s.Pos)
+		if vsym.IsConcrete(len(p)) && len(p) < n {
+			n = len(p)
+		}
+		copy(p[:n], s.Head[s.Pos:int(s.Pos)+n])
+		s.Pos += int64(n)
+		return n, nil
 	}
 	limit := s.L
 	failing := false
